@@ -6,6 +6,7 @@ import json
 from spverif.core.util import attempt, exc_sig, rand_uint, rand_bytes
 from spverif.ref import cfdp as R
 from . import _cfdp as C
+from . import _views as V
 
 SCRIBBLE = True
 THOROUGH_SCALE = 8
@@ -98,6 +99,8 @@ def k_fd(ctx, cfg, p, model_fed=False, via="ctor", seed=0):
     ctx.check("fd.roundtrip", u.packet_len == len(want), "packet_len", feat, case, observed=u.packet_len, expected=len(want))
     ok, rp = attempt(u.pack)
     ctx.check("fd.roundtrip", ok and bytes(rp) == want, "repack", feat, case, observed=bytes(rp)[:80] if ok else repr(rp))
+    V.pdu_views(ctx, "fd.delegated_views", pdu, want, hexp, case, "FileDataPdu/constructed")
+    V.pdu_views(ctx, "fd.delegated_views", u, want, hexp, case, "FileDataPdu/unpacked")
     ISO.remember(u, want, "file_data", view=lambda u=u: (C.get_params("file_data", u), C.hdr_fields(u.pdu_header), u.packet_len))
     ISO.recheck(ctx, "fd.decoded_objects_independent", case)
 
